@@ -773,6 +773,14 @@ func c01Generated(r *ev.Recorder) {
 			}
 			r.Eval(1)
 		}
+		if b.Kind == "ok" && c.Devs <= 2 {
+			// and without gofmt in between (File.NoFormat): the raw rendering re-parses to the same tree
+			if b3 := roundTrip("gen.go", []byte(src), ggRealName, a2j.Hooks{NoFormat: true}); b3.Kind != "ok" {
+				b = b3
+				b.Kind += "(NoFormat)"
+			}
+			r.Eval(1)
+		}
 		mu.Lock()
 		kinds[b.Kind]++
 		mu.Unlock()
